@@ -14,6 +14,8 @@ from .c01 import fillers_of
 from .c03 import check_pairing
 
 PROP = 'C04'
+TECHNIQUE = ('static analysis: extraction of the header byte tables and codecs; def-use wiring of the size slots; role-tagged '
+             'polynomial evaluation of the size formulas; abstract interpretation of the header-word classification')
 EXPLANATION = (
     'C04.1 footer element type: every array serialised into the footer by any writer is int32 on every path - '
     'provenance of each headers_dict value (np.zeros dtype int32/intc, np.frombuffer int32, .astype(int32/intc), '
